@@ -284,6 +284,14 @@ func buildFixture(root string) (*fixture, error) {
 	f.rings["k0k1"] = append(append([]byte{}, f.keys[0].Pub...), f.keys[1].Pub...)
 	f.rings["k1k0"] = append(append([]byte{}, f.keys[1].Pub...), f.keys[0].Pub...)
 	f.rings["empty"] = []byte{}
+	for i, k := range f.keys {
+		rev, err := revokedRing(k)
+		if err != nil {
+			return nil, fmt.Errorf("revoked keyring for %s: %w", k.Label, err)
+		}
+		f.rings[k.Label+"rev"] = rev
+		f.rings[f.keys[1-i].Label+k.Label+"rev"] = append(append([]byte{}, f.keys[1-i].Pub...), rev...)
+	}
 	for n, b := range f.rings {
 		if err := os.WriteFile(f.ringPath(n), b, 0o644); err != nil {
 			return nil, err
